@@ -14,7 +14,7 @@ Driver for C10.  Operations (one per line; `n` = enum size, `w` = word width):
 * `bits n w A`     — digest of the `bit` lines for all i < n
 * `mask w k` / `test w x k` — `fcppt::bit::shifted_mask<W>(k)`, `fcppt::bit::test(x, shifted_mask<W>(k))`
 * `expr n w <rpn> ; <rpn>` — two expressions in reverse Polish notation over
-    `L<mask>` initializer list (ascending)      `D<i>.<j>...` initializer list in this order (duplicates allowed)
+    `L<mask>` initializer list (ascending)      `D<i>.<j>...` initializer list in this order (duplicates allowed, <= 64)
     `I<mask>` init                              `A<x0>.<x1>...` raw-array constructor
     `N` null()                                  `Z` empty initializer list
     `S<i>` `U<i>` set true/false                `T<i>` `F<i>` operator[] = true/false
@@ -116,7 +116,7 @@ def rpn {w : Nat} (n : Nat) : List String → List (Words w) → Option (Words w
       let args := parseDots (t.drop 1).toString
       match t.front, args, st with
       | 'L', some [m], st => if m < 2 ^ n then rpn n ts (ofList n w (maskToList n m) :: st) else none
-      | 'D', some l, st => if l.all (· < n) ∧ l.length ≤ 8 then rpn n ts (ofList n w l :: st) else none
+      | 'D', some l, st => if l.all (· < n) ∧ l.length ≤ 64 then rpn n ts (ofList n w l :: st) else none
       | 'I', some [m], st => if m < 2 ^ n then rpn n ts (init n w (fun i => m.testBit i) :: st) else none
       | 'A', some l, st =>
         if l.length = nwords n w ∧ l.all (· < 2 ^ w) then rpn n ts (ofArray (l.map (BitVec.ofNat w)) :: st) else none
